@@ -23,6 +23,7 @@ def dualX {α : Type} (o : XOps α) : XOps (α × α) where
     o.div (o.sub (o.mul x.1 y.2) (o.mul y.1 x.2)) (o.add (o.mul x.1 x.1) (o.mul y.1 y.1)))
   abs a := (o.abs a.1, o.mul (o.sign a.1) a.2)
   floor a := (o.floor a.1, o.zero)
+  floorInt a := o.floorInt a.1
   nextUp a := (o.nextUp a.1, a.2)
   isFinite a := o.isFinite a.1 && o.isFinite a.2
 
